@@ -439,3 +439,86 @@ func (p *Pos) Perft(d int) int64 {
 	}
 	return n
 }
+
+// Attackers lists the squares of the pieces of the given colour that attack square s
+// (pawns diagonally; en passant is not an attack on a square).
+func (p *Pos) Attackers(s int, byWhite bool) []int {
+	var out []int
+	sign := int8(1)
+	if !byWhite {
+		sign = -1
+	}
+	f, r := s%8, s/8
+	pr := r - 1
+	if !byWhite {
+		pr = r + 1
+	}
+	for _, df := range []int{-1, 1} {
+		if on(f+df, pr) && p.Sq[pr*8+f+df] == sign*P {
+			out = append(out, pr*8+f+df)
+		}
+	}
+	for _, d := range knightD {
+		if on(f+d[0], r+d[1]) && p.Sq[(r+d[1])*8+f+d[0]] == sign*N {
+			out = append(out, (r+d[1])*8+f+d[0])
+		}
+	}
+	for _, d := range kingD {
+		if on(f+d[0], r+d[1]) && p.Sq[(r+d[1])*8+f+d[0]] == sign*K {
+			out = append(out, (r+d[1])*8+f+d[0])
+		}
+	}
+	for i, d := range kingD { // the eight ray directions
+		straight := i%2 == 0
+		for x, y := f+d[0], r+d[1]; on(x, y); x, y = x+d[0], y+d[1] {
+			if v := p.Sq[y*8+x]; v != 0 {
+				if v == sign*Q || (straight && v == sign*R) || (!straight && v == sign*B) {
+					out = append(out, y*8+x)
+				}
+				break
+			}
+		}
+	}
+	return out
+}
+
+// Pin is a piece shielding a target from an enemy slider on a common line.
+type Pin struct{ Attacker, Pinned, Target int }
+
+// PinsOn lists the pins against the piece on square target: along each ray the first occupied
+// square holds a piece of the target's colour and the next occupied square an enemy slider
+// that moves along that ray.
+func (p *Pos) PinsOn(target int) []Pin {
+	var out []Pin
+	v := p.Sq[target]
+	if v == 0 {
+		return nil
+	}
+	sign := int8(1)
+	if v < 0 {
+		sign = -1
+	}
+	f, r := target%8, target/8
+	for i, d := range kingD {
+		straight := i%2 == 0
+		pinned := -1
+		for x, y := f+d[0], r+d[1]; on(x, y); x, y = x+d[0], y+d[1] {
+			w := p.Sq[y*8+x]
+			if w == 0 {
+				continue
+			}
+			if pinned < 0 {
+				if w*sign > 0 {
+					pinned = y*8 + x
+					continue
+				}
+				break
+			}
+			if w == -sign*Q || (straight && w == -sign*R) || (!straight && w == -sign*B) {
+				out = append(out, Pin{Attacker: y*8 + x, Pinned: pinned, Target: target})
+			}
+			break
+		}
+	}
+	return out
+}
